@@ -1,3 +1,51 @@
-(* placeholder until the C02 theorems land *)
-Lemma c02_placeholder : True. Proof. exact I. Qed.
-Print Assumptions c02_placeholder.
+(* C02 -- a crash at any instant leaves the previous or the new commit, never a mix.
+   Model: model/Crash.v (page-granular disk, two header slots, the commit's I/O sequence built from the
+   order of write_data's steps as the translator reads it from the CURRENT source: Consts.commit_order).
+   Premises visible in the statements: the commit setting (select = cur, copy-on-write: no written page is
+   live in cur, the new snapshot = written pages + kept pages) -- copy-on-write is proved of the
+   page-lifecycle machine (PLFacts.commit_cow) and validated per real commit; a torn header is not a valid
+   header (NoTornCollision, evaluated on every torn image by the crash check). *)
+From Coq Require Import List NArith String.
+From Jamm Require Import Bytes Consts PL Crash CrashFacts CrashCurrent PLFacts.
+Import ListNotations.
+
+(* process kill: any prefix of the I/O sequence *)
+Theorem C02_kill : forall d cur newh t written, commit_setting d cur newh t written ->
+  forall n, pre_or_post d cur newh t written
+    (run_prefix t newh (negb (current_slot d)) d (commit_io written) n).
+Proof. exact C02_kill_current. Qed.
+Print Assumptions C02_kill.
+
+(* power loss: calls before the last completed sync applied; every later issued write independently applied,
+   lost or torn (a torn data page is garbage, a torn header is invalid) *)
+Theorem C02_power : forall d cur newh t written, commit_setting d cur newh t written ->
+  forall n fates, pre_or_post d cur newh t written
+    (power_image t newh (negb (current_slot d)) d (commit_io written) n fates).
+Proof. exact power_current. Qed.
+Print Assumptions C02_power.
+
+(* once commit has returned (whole sequence issued, final sync completed) its effects survive *)
+Theorem C02_durable : forall d cur newh t written, commit_setting d cur newh t written ->
+  let ios := commit_io written in forall fates,
+  let img := power_image t newh (negb (current_slot d)) d ios (List.length ios) fates in
+  select img = Some newh /\ intact (orig_new d t written) img newh.
+Proof. exact durable_current. Qed.
+Print Assumptions C02_durable.
+
+(* the pinned order (no sync between data and header) violates the property: witness by computation *)
+Theorem C02_power_pinned_refuted : exists d cur newh t written n fates, commit_setting d cur newh t written /\
+  let img := power_image t newh (negb (current_slot d)) d (commit_io_of pinned_order written) n fates in
+  select img = Some newh /\ ~ intact (orig_new d t written) img newh /\ ~ pre_or_post d cur newh t written img.
+Proof. exact C02_power_refuted. Qed.
+
+(* the copy-on-write premise, from the page-lifecycle machine *)
+Theorem C02_cow_premise : forall s w nf npd l' np' tx' s', PLInv s ->
+  accept s (ECommit w nf npd l' np' tx') = Some s' ->
+  (forall x, In x w -> ~ In x (live s)) /\
+  (forall x, In x (live s) -> In x (live s') \/ In x (pend_all (pend s'))).
+Proof. exact commit_cow. Qed.
+Print Assumptions C02_cow_premise.
+
+(* the premises are satisfiable *)
+Example C02_setting_inhabited : commit_setting ex_d ex_cur ex_newh 2 [4%N; 5%N].
+Proof. exact ex_setting. Qed.
